@@ -23,6 +23,7 @@ type CheckConfig struct {
 	Bounded       []BoundedCheck         `json:"bounded"`
 	Replay        map[string]*ReplaySpec `json:"replay"`     // function key -> replay harness
 	SkipNames     []string               `json:"skip_names"` // labelled obligations of OTHER properties on shared functions: decided by that property's check, not here
+	Level         string                 `json:"level"`      // "other": the claim rests partly on bounded stand-ins or schedule assumptions (never raises the level)
 	LockSweep     []string               `json:"lock_sweep"` // lock mode over every function with one of these key prefixes: lockset obligations only
 	LockSweepSkip []string               `json:"lock_sweep_skip"`
 	Sweep         []string               `json:"sweep"` // thorough: zero-annotation no-panic sweep over functions with this key prefix
@@ -438,7 +439,7 @@ func cmdCheck(args []string) {
 
 	// evidence
 	level := "proof"
-	if discharged != len(all) || len(engineErrors) > 0 || len(all) == 0 {
+	if discharged != len(all) || len(engineErrors) > 0 || len(all) == 0 || cfg.Level == "other" || len(cfg.Bounded) > 0 {
 		level = "other"
 	}
 	trusted := map[string]int{}
